@@ -550,7 +550,10 @@ func genSpecValue(depth int, unsupported bool) *rapid.Generator[*spec.Value] {
 			}
 			return spec.Struct(names, vals)
 		default:
-			switch rapid.IntRange(0, 7).Draw(rt, "fixed") {
+			switch rapid.IntRange(0, 8).Draw(rt, "fixed") {
+			case 8:
+				return &spec.Value{T: spec.FixedType("Shadowed"), Items: []*spec.Value{spec.String("alice"),
+					{T: spec.FixedType("Audit"), Items: []*spec.Value{spec.String("audit-row"), spec.IntOf(spec.TInt, 7)}}, spec.IntOf(spec.TInt, 30)}}
 			case 6:
 				return &spec.Value{T: spec.FixedType("Money"), Items: []*spec.Value{spec.IntOf(spec.TInt64, 1250), spec.String("EUR")}}
 			case 7:
